@@ -63,6 +63,7 @@ func (c *MemEnd) Write(p []byte) (n int, err error) {
 		}
 	}
 	c.mon.Do(kind, c.ID, nil, func() {
+		dup := vs.TakeDup() // (taken even when the write fails: an order never carries over to another write)
 		if c.Closed {
 			err = errors.New("use of closed network connection")
 			return
@@ -72,7 +73,7 @@ func (c *MemEnd) Write(p []byte) (n int, err error) {
 			return
 		}
 		c.Peer.buf = append(c.Peer.buf, p...)
-		for k := vs.TakeDup(); k > 0; k-- {
+		for k := dup; k > 0; k-- {
 			// DUP deviation: the peer retransmits this answer (the copies follow it immediately)
 			c.Peer.buf = append(c.Peer.buf, p...)
 		}
